@@ -7,9 +7,9 @@ hooks = subprocess.run(["git", "-C", "/repo", "log", "--format=%h", "--grep=^ver
 P = {
  "C01": ("5 C01", "catch_unwind + panic-site recorder around the five entry points (overflow checks on), subprocess shards for aborts; thorough tier adds a Miri leg",
          "every execution of clean / list / list_all (pretty, JSON) on generated inputs returned normally with valid UTF-8; inputs: exhaustive atom strings, hostile random sequences, mutated/truncated documents, deep nesting, configuration pool"),
- "C02": ("5 C02/C03", "reference-model monitor: output vs. input minus reference extents (subsequence / whitespace-only-deletion oracles), Decision hook events as diagnosis",
+ "C02": ("5 C02/C03", "reference-model monitor: output vs. input minus reference extents (subsequence / whitespace-only-deletion oracles), Decision hook events as diagnosis; the same oracle over results produced by the real binary (subprocess)",
          "on every generated document with >= 1 ready element the output was the input with byte ranges taken out and all non-whitespace text outside the reference extents survived in order"),
- "C03": ("5 C02/C03", "reference-model monitor: output must equal (input minus union of ready extents) up to deletion of spaces, tabs, line breaks; nesting classes counted",
+ "C03": ("5 C02/C03", "reference-model monitor: output must equal (input minus union of ready extents) up to deletion of spaces, tabs, line breaks; nesting classes counted; the same oracle over results produced by the real binary (subprocess)",
          "on every generated document with >= 1 ready element nothing of a ready element survived, at every nesting class observed (ready in pending / skip / unregistered / ready / unwrapped parents)"),
  "C04": ("5 C04", "reference-model monitor: byte-for-byte identity on documents in which the reference evaluation finds no ready element, at the library and through the real binary (subprocess)",
          "clean(x) == x byte-for-byte on every generated document without a ready element (pending, skip, unregistered, malformed, unclosed, un-unwrappable, junk); the same through the CLI on file/stdin/--output routes incl. BOM, CRLF, missing final line break"),
@@ -31,7 +31,7 @@ P = {
          "every surviving inner line had exactly the reference indentation, unchanged remainder and indentation taken from the old one, for units {2sp,4sp,tab} x tag indent 0..2 x first-line offsets x nesting depth 1..3 x line-1 / later"),
  "C13": ("5 C13", "line-level reference monitor on default-strategy block documents: byte-for-byte surviving lines + blank-line arithmetic a+b-[a>0 and b>0]",
          "surviving non-blank lines byte-identical and in order, blank-line formula exact for every (b,a) in 0..4^2 x blank flavour x indent x neighbours x pending parent x final newline x second block (exhaustive), plus random block documents"),
- "C14": ("5 C14", "alignment monitor: k-th non-whitespace character of (input minus extents) is the k-th of the output, so every untouched stretch owns an exact output span that must equal the trimmed stretch",
+ "C14": ("5 C14", "alignment monitor: k-th non-whitespace character of (input minus extents) is the k-th of the output, so every untouched stretch owns an exact output span that must equal the trimmed stretch; the same oracle over results produced by the real binary (subprocess)",
          "every maximal untouched stretch (per line inside unwrapped bodies) appeared verbatim at its aligned place, on all documents of the C02/C03 workload incl. inline elements, shared lines, mutated and junk documents"),
  "C15": ("5 C15", "reference-region + hook monitor: list items and highlighted text vs. reference regions; byte union of the CleanMarkers event of clean vs. the same regions (and deleted length); purity by interleaved calls",
          "Ready items == reference regions of the ready elements (count, order, first/last line, highlighted text), the bytes clean deletes before tidying == the union of those regions, list unchanged by interleaved clean / list_all calls, on all documents of the C15 space generated (block, inline, CRLF, bounded-exhaustive line sequences, configuration steps 0..4)"),
@@ -41,7 +41,7 @@ P = {
          "list_all == Ready regions + outstanding Pending regions in source order for all sibling strings over 8 sibling kinds up to the recorded length (exhaustive) and random documents with many pending elements; the law held on junk / mutated text and with tails of up to 130 pending elements behind wrapper-line templates"),
  "C18": ("5 C18", "relational (metamorphic) monitor: one AST rendered under two spellings, outputs compared after token-wise canonicalisation; renderings that trigger KF-C08 skipped and counted",
          "clean output and list / list_all line ranges identical after canonicalisation for every pair from a pool of 15 delimiter pairs x 5 tag-name pairs on the generated ASTs"),
- "C19": ("5 C19", "history monitor: chains of cleaning runs at non-decreasing configurations; idempotence byte-for-byte, stepwise vs. direct up to whitespace, nothing stranded",
+ "C19": ("5 C19", "history monitor: chains of cleaning runs at non-decreasing configurations; idempotence byte-for-byte, stepwise vs. direct up to whitespace, nothing stranded; the same histories executed by the real binary rewriting the file in place",
          "for all 69 non-decreasing chains of length 1..4 over 4 configuration steps on the generated documents: re-cleaning changed nothing, stepwise == direct up to whitespace, result == input minus final extents"),
  "C20": ("5 C20", "process-boundary monitor: the real binary as a subprocess (argv, stdin, files, env) vs. the in-process library result; thorough tier adds valgrind memcheck runs",
          "bytes identical across {file, stdin} x {stdout, --output, --output=input} x {flags, config file, both} x TZ x locale x 5 modes and equal to the library result; exit status 0; defaults contribute no target"),
